@@ -52,12 +52,18 @@ pub fn run(s: &dyn Subject, ctx: &Ctx) -> Option<DeclReport> {
     if !strict && !spec.has_tag("C11v") {
         return None;
     }
-    let canonical = |v: &Value| -> bool {
+    // value-wise applicability is decided on the *raw input* with the reference model alone: the model accepts it and maps its own
+    // result to itself. Then C01 already implies that the real stored value is a fixed point of the real constructor.
+    let canonical = |raw: &Value| -> bool {
         if strict {
             return true;
         }
-        let e = ctx.oracle.ctor(spec, v);
-        e.must_accept() && e.sanitized == *v
+        let e = ctx.oracle.ctor(spec, raw);
+        if !e.must_accept() {
+            return false;
+        }
+        let e2 = ctx.oracle.ctor(spec, &e.sanitized);
+        e2.must_accept() && e2.sanitized == e.sanitized
     };
     let mut rep = DeclReport::new("C11", spec);
     let mut dom = domain(spec, ctx.tier, ctx.seed);
@@ -89,7 +95,7 @@ pub fn run(s: &dyn Subject, ctx: &Ctx) -> Option<DeclReport> {
         }
         for (how, o) in others {
             if let Obs::Ok(w) = o {
-                if !canonical(&w) {
+                if !canonical(raw) {
                     rep.guard("model_value_not_canonical(skipped)");
                     continue;
                 }
@@ -104,7 +110,7 @@ pub fn run(s: &dyn Subject, ctx: &Ctx) -> Option<DeclReport> {
             Obs::Ok(v) => v,
             _ => continue,
         };
-        if !canonical(&v) {
+        if !canonical(raw) {
             rep.guard("model_value_not_canonical(skipped)");
             continue;
         }
